@@ -89,3 +89,6 @@ class KV:
     def numdofs(self): return self.kv.size - self.p - 1
     @property
     def numknots(self): return self.kv.size
+    def support(self, j=None):
+        assert j is None
+        return (self.kv[0], self.kv[-1])
